@@ -575,3 +575,17 @@ def oracle(lines, impl):
     if os.environ.get("C06_STATS"):
         print("[C06 oracle ratios] " + " ".join("%s=%.3g@%s" % (k, v, WHERE.get(k)) for k, v in sorted(STATS.items())), flush=True)
     return fails
+
+# --- deep theorems (second pass; modules written in their own files, wired here by the lead)
+PROOF_MODULES = PROOF_MODULES + ['Compute.Props.C06Perm']
+REQUIRED_THEOREMS = REQUIRED_THEOREMS + ['Cv.C06P.fit_perm', 'Cv.C06P.fit_perm_none', 'Cv.C06P.fit_perm_coef', 'Cv.C06P.fit_perm_deviance', 'Cv.C06P.isDesign_perm', 'Cv.C06P.predict_perm']
+_np = list(NOT_PROVED)
+_np[2] = None
+NOT_PROVED = [x for x in _np if x is not None]
+
+# --- deep theorems (2: solver hypothesis discharged)
+PROOF_MODULES = PROOF_MODULES + ['Compute.Props.C01SolveApps']
+REQUIRED_THEOREMS = REQUIRED_THEOREMS + ['Cv.C01Solve.glm_solver_exact', 'Cv.C01Solve.glm_fixed_point_unconditional', 'Cv.C01Solve.glm_gaussian_normal_equations_unconditional']
+_np = list(NOT_PROVED)
+_np = [('the solver hypothesis is discharged for regular (non-singular) information matrices: Props/C01SolveApps instantiates the fixed-point and Gaussian normal-equation theorems with the model of `solve` itself; on a singular information matrix the model (like a field) divides by a zero pivot and the theorems do not apply' if 'correctness of the linear solver' in str(x) else x) for x in _np]
+NOT_PROVED = [x for x in _np if x is not None]
